@@ -17,6 +17,10 @@ T = {
          "Absent directive values, empty arrays and holes are outside the quantifier (C07/C08).", "7 C04"),
  "C05": ("Theorems about the model directive chosen per host (select/textarea/input by static type/no type/dynamic type), the generated listener (reads back as an assignment of its parameter to exactly the bound target), component props (value prop, <arg>Modifiers, onUpdate:<name>), element bindings, and v-models as the same-order sequence of v-model attributes. Oracle: denoted props + directive bindings of every element carrying v-model(s) = those evaluated from the real output.",
          "Two known findings (computed-argument listener key without colon, snapshot-pinned; argument on a form element names the listener onUpdate:<arg>), listed in known_findings.txt.", "7 C05"),
+ "C12": ("Theorems about the model: the props expression/directives/v-slots of an element are independent of `optimize` (transformAttrs is blind to it), the wrapped slots object under optimize is the un-optimised one plus exactly one trailing `_` entry which hint-erasure removes, the slot-flag stack is untouched when optimize is off and push/pop are balanced. PAIR ORACLE on the real code: every fixture and thousands of generated modules are transformed under optimize=true and optimize=false and eraseHints(output_true) must equal output_false syntactically (modulo renaming of generated identifiers), hence under every semantics.",
+         "The whole-traversal theorem eraseHints(transform opt=true) = transform opt=false is not yet proved for all modules (proved: its local ingredients); the pair oracle covers the generated inputs only.", "7 C12"),
+ "C13": ("Decision-logic theorems about the patch-flag analysis of the model, for all accumulator states and attributes: the flag is one of the finitely many unions of CLASS/STYLE/PROPS/FULL_PROPS/HYDRATE_EVENTS/NEED_PATCH (never negative); dynamic keys give exactly FULL_PROPS; spreads and transformOn objects set dynamic keys; the analysis is monotone (no fact cleared, no dynamic prop removed); a non-constant plain attribute other than key/ref is covered (class/style facts on elements, dynamic-prop list otherwise; on components class/style are ordinary props); PROPS/CLASS/STYLE bits follow from the facts; ref/directive exclude HYDRATE_EVENTS alone and no flag; the slot flag is 1 or 2 and a bound identifier child marks every open slot. Oracle: the statement's clauses evaluated on every vnode call of the real output.",
+         "The lift of the cover theorem through the whole attribute fold (directives and v-model steps in between) is not yet a theorem; the oracle judges hints against the props the real call passes.", "7 C13"),
 }
 
 def main():
